@@ -24,6 +24,14 @@ PROP = {
             ],
         },
         {
+            # the mirror kernel's own tally (votedistribution.go, unexported: the harness file is an in-package test)
+            "bin": "c06dist", "pkg": "tm/tmengine/internal/tmmirror/internal/tmi",
+            "inject": [("c06kit", "internal/zzverif/c06kit"), ("c06dist", "tm/tmengine/internal/tmmirror/internal/tmi")],
+            "tests": [
+                {"name": "TestVerifC06Distribution", "quick": 10000, "thorough": 1600000, "shards": {"thorough": 16}, "salt": 3},
+            ],
+        },
+        {
             "bin": "mirrorsim", "pkg": "tm/tmengine/internal/tmmirror", "inject": [("mirrorsim", "tm/tmengine/internal/tmmirror")],
             "tests": [
                 {"name": "TestVerifC06MirrorMinority", "quick": 800, "thorough": 120000, "shards": {"thorough": 16}, "salt": 2},
@@ -34,7 +42,7 @@ PROP = {
 CLAIM = {
     "engine": "rapid-direct",
     "technique": "stateful property-based testing (rapid) of tmconsensus.VoteSummary against an independent math/big recomputation from the signer sets",
-    "text": "Generated validator sets (n in 1..12; small, equal, dominant, near-threshold and huge powers) and families of signer sets per target (nil target, one validator in up to six targets, signers restricted to a maximal set below one third), evaluated through SetAvailablePower/SetPrevotePowers/SetPrecommitPowers/SetVotePowers/Reset/ResetForSameHeight/Clone with shuffled proof-map insertion orders and repeated evaluation. Every field of the summary is compared with the recomputation (available = sum, per target = distinct signers, total = union of signers, most voted = documented tie rule); for signer sets below one third the caller-side thresholds (minority, majority, fully voted) must stay unmet. Exploration, not proof.",
+    "text": "Generated validator sets (n in 1..12; small, equal, dominant, near-threshold and huge powers) and families of signer sets per target (nil target, one validator in up to six targets, signers restricted to a maximal set below one third), evaluated through SetAvailablePower/SetPrevotePowers/SetPrecommitPowers/SetVotePowers/Reset/ResetForSameHeight/Clone with shuffled proof-map insertion orders and repeated evaluation. Every field of the summary is compared with the recomputation (available = sum, per target = distinct signers, total = union of signers, most voted = documented tie rule); for signer sets below one third the caller-side thresholds (minority, majority, fully voted) must stay unmet. The mirror kernel's own per-target tally (newVoteDistribution, used for header fetches and for the committing block at start-up) is compared with the same recomputation. Exploration, not proof.",
     "design_ref": "DESIGN.md section 4 C06 (direct half)",
     "note": "Map iteration order inside the code under test is chosen by the Go runtime; it is explored by insertion-order shuffling plus repetition, not enumerated.",
 }
